@@ -85,6 +85,10 @@ def check(tier):
                 if smp.get('accepted_input') is not None:
                     got = replay.call1(['parse', r['what'], r['N'], bytes(smp['accepted_input']).hex()])
                     if got.startswith('Ok '): rep.replayed += 1
+                    elif got.startswith('PANIC'):
+                        rep.replayed += 1
+                        rep.violation('%s::from_bytes:panic' % r['what'], '%s::<%d>::from_bytes panics on a well-formed %d-byte input (a sample of the accepting path): %s'
+                                      % (r['what'], r['N'], r['L'], got), {'replay_request': ['parse', r['what'], r['N'], bytes(smp['accepted_input']).hex()[:80] + '...'], 'dev': got})
                     else: rep.note_inconclusive('translator validation failed (%s): the real code answers %s' % (r['tag'], got[:60]))
         if job[1] == 'decompress_scen':
             for s in r.get('samples', [])[:1]:
